@@ -182,6 +182,44 @@ def rule_g3(F):
 CONSTRUCTORS = {"Verdict": 2, "Result": 2, "Option": 1, "List": 1}
 
 
+def _constructor_helper(F, body):
+    """The arm delegates the 'is this the built-in generic NAME, and what are its arguments' test to a crate-local helper:
+    `let Some([a, b]) = helper(&roto_type, "NAME") else { return Err(..) }`. Returns None or a dict with the literal, whether
+    the helper compares against the GLOBAL scope and against its name parameter, and the let statement."""
+    for l in hir.nodes(body, "letstmt"):
+        init = hir.strip(l.get("init") or {})
+        if init.get("k") != "call":
+            continue
+        d = hir.call_def(init)
+        hb = F.body(d) if d else None
+        if hb is None or not hb.hir or not d.startswith("codegen::check::"):
+            continue
+        lits = [hir.strip(a).get("v") for a in init["args"] if hir.strip(a).get("k") == "lit" and isinstance(hir.strip(a).get("v"), str)]
+        if len(lits) != 1:
+            continue
+        hh = hb.hir["value"]
+        hld = hir.LocalDefs(hb.hir)
+        pidx = hir.param_index(hb.hir)
+        lit_pos = [i for i, a in enumerate(init["args"]) if hir.strip(a).get("k") == "lit"][0]
+        glob = any((hir.res_def(n) or "").endswith("ScopeRef::GLOBAL") for n in hir.walk(hh) if n.get("k") == "path")
+        # the comparison(s): == / != whose operands involve the `name`/`ident`/`scope` of the type on one side and the parameter / GLOBAL on the other
+        cmp_param = cmp_scope = False
+        for c in hir.nodes(hh, "bin"):
+            if c.get("op") not in ("==", "!="):
+                continue
+            fields = {n.get("n") for n in hir.walk(c) if n.get("k") == "field"} | {f[0] for st in hir.nodes(c, "struct") for f in st["fields"]}
+            uses_param = lit_pos in hir.param_roots(hb.hir, hld, c, pidx=pidx)
+            uses_glob = any((hir.res_def(n) or "").endswith("ScopeRef::GLOBAL") for n in hir.walk(c) if n.get("k") == "path")
+            if uses_param and ({"ident", "name"} & fields):
+                cmp_param = True
+            if uses_glob and ({"scope", "name"} & fields):
+                cmp_scope = True
+        returns_arguments = any(n.get("k") == "field" and n.get("n") == "arguments" for n in hir.walk(hh)) or \
+            any("arguments" in hir.pat_desc(p) for p in [x["pat"] for x in hir.nodes(hh, "letstmt")] + [a["pat"] for m in hir.nodes(hh, "match") for a in m["arms"]])
+        return {"let": l, "literal": lits[0], "helper": d, "global": glob and cmp_scope, "by_param": cmp_param, "arguments": returns_arguments}
+    return None
+
+
 def rule_g4(F):
     r = RuleResult("C04.G4", "constructor arms of check_roto_type: same global constructor name, arity, component pairing, propagation", floor=4 + 6 + 1)
     b = F.body(CHECK_ROTO_TYPE)
@@ -224,7 +262,17 @@ def rule_g4(F):
                 lit = [n.get("v") for n in hir.walk(fd.get("ident", {})) if n.get("k") == "lit"]
                 scope = hir.result_desc(fd.get("scope", {}))
                 names.append((cmp_["op"], lit[0] if lit else None, scope, cmp_))
-        if not names:
+        helper = _constructor_helper(F, body) if not names else None
+        if helper is not None:
+            r.inst("arm %s|helper" % v, {k: helper[k] for k in ("helper", "literal", "global", "by_param", "arguments")})
+            if helper["literal"] != v:
+                r.bad(CHECK_ROTO_TYPE, "arm %s|name" % v, relfile(b.file), helper["let"]["line"], "arm for %s accepts the Roto type named `%s`" % (v, helper["literal"]))
+            if not helper["by_param"]:
+                r.bad(CHECK_ROTO_TYPE, "arm %s|name" % v, relfile(b.file), helper["let"]["line"], "%s does not compare the type's name with the name it is given" % helper["helper"])
+            if not helper["global"]:
+                r.bad(CHECK_ROTO_TYPE, "arm %s|name" % v, relfile(b.file), helper["let"]["line"],
+                      "%s accepts a type called `%s` from any scope (no comparison with ScopeRef::GLOBAL): a user enum that shadows the built-in passes the gate" % (helper["helper"], v))
+        elif not names:
             r.bad(CHECK_ROTO_TYPE, "arm %s|name" % v, relfile(b.file), arm["line"], "arm does not compare the Roto type's name with the global `%s`" % v)
         for (op, lit, scope, node) in names:
             if lit != v:
@@ -249,6 +297,21 @@ def rule_g4(F):
                 if sp.get("mid") is not None or sp.get("after"):
                     r.bad(CHECK_ROTO_TYPE, "arm %s|arity" % v, relfile(b.file), l["line"], "argument slice pattern has a rest element")
                 roto_binds = [x.get("local") for x in sp["before"]]
+                if not l.get("els") or not hir.diverges(l["els"]):
+                    r.bad(CHECK_ROTO_TYPE, "arm %s|arity" % v, relfile(b.file), l["line"], "wrong argument count does not return an error")
+        if roto_binds is None and helper is not None and helper["arguments"]:
+            # `let Some([a, b]) = helper(..) else { return Err }`
+            l = helper["let"]
+            pat = l["pat"]
+            inner = None
+            if pat.get("k") == "pts" and len(pat.get("pats") or []) == 1:
+                inner = pat["pats"][0]
+                while inner.get("k") == "pref":
+                    inner = inner["pat"]
+            if inner is not None and inner.get("k") == "pslice":
+                if inner.get("mid") is not None or inner.get("after"):
+                    r.bad(CHECK_ROTO_TYPE, "arm %s|arity" % v, relfile(b.file), l["line"], "argument slice pattern has a rest element")
+                roto_binds = [x.get("local") for x in inner["before"]]
                 if not l.get("els") or not hir.diverges(l["els"]):
                     r.bad(CHECK_ROTO_TYPE, "arm %s|arity" % v, relfile(b.file), l["line"], "wrong argument count does not return an error")
         r.inst("arm %s|arity" % v)
